@@ -1,6 +1,7 @@
 package cmdutils
 
 import (
+	"fmt"
 	"regexp"
 	"strings"
 
@@ -41,6 +42,20 @@ func MakeFormatParser(fmtStr string) *FormatParser {
 	return &FormatParser{
 		Self: fmtStr,
 	}
+}
+
+// Check reports a malformed format string as an error instead of the panic Parse raises for it. Whether Parse
+// panics is decided by the format string alone (every branch of an expansion is parsed whatever the values are), so
+// one trial run without values decides for all later uses.
+func (fp *FormatParser) Check() (err error) {
+	defer func() {
+		if r := recover(); r != nil {
+			fp.Clear()
+			err = fmt.Errorf("invalid format string %q: %v", fp.Self, r)
+		}
+	}()
+	fp.Parse(map[string]string{})
+	return nil
 }
 
 func (fp *FormatParser) LabelEndpoint(p *EndpointLabelerParam) string {
